@@ -406,4 +406,7 @@ def extra_contracts():
     """"an error raised by any disposable's cleanup reaches the caller": the metrics exit runs in the innermost `finally` after
     it and must not raise on its own account (C09's completion protocol, re-checked here)."""
     from .C02 import _metrics_exit_never_raises
-    return _metrics_exit_never_raises("C08")
+    from .C01 import Lookup
+    # "state yielded by disposables is visible inside the scope": visible means `ctx.state` finds it - whatever its truth
+    # value (a state class may define __len__ / __bool__): the lookup clauses of C01
+    return _metrics_exit_never_raises("C08") + [_variant(Lookup, "C08", ("C01-P3", "C01-P2", "C01-P4"))]
